@@ -129,8 +129,7 @@ def sort(sequence: ArrayT, key: object = None) -> list[object]:
     be at the end of the output list/array.
     """
     if key:
-        key_func = partial(_getitem, key=str(key), default=MAX_CH)
-        return sorted(sequence, key=key_func)
+        return sorted(sequence, key=partial(_sort_key, key=str(key)))
 
     try:
         return sorted(sequence)
@@ -146,8 +145,7 @@ def sort_natural(sequence: ArrayT, key: object = None) -> list[object]:
     be at the end of the output list/array.
     """
     if key:
-        item_getter = partial(_getitem, key=str(key), default=MAX_CH)
-        return sorted(sequence, key=lambda obj: _lower(item_getter(obj)))
+        return sorted(sequence, key=partial(_sort_key, key=str(key), lower=True))
 
     return sorted(sequence, key=_lower)
 
@@ -252,7 +250,8 @@ def compact(sequence: ArrayT, key: object = None) -> list[object]:
             raise FilterArgumentError(
                 f"can't read property '{key}'", token=None
             ) from err
-    return [itm for itm in sequence if itm is not None]
+    # The map filter stands in its own null object for a property that is missing.
+    return [itm for itm in sequence if itm is not None and itm is not _NULL]
 
 
 @sequence_filter
@@ -312,6 +311,18 @@ def _getitem(sequence: Any, key: object, default: object = None) -> Any:
         if not hasattr(sequence, "__getitem__"):
             raise
         return default
+
+
+def _sort_key(obj: Any, key: str, *, lower: bool = False) -> tuple[int, Any]:
+    """Helper for the sort filters.
+
+    Objects without the key property go last, whatever the type of the values that
+    the others have.
+    """
+    val = _getitem(obj, key, MISSING)
+    if val is MISSING:
+        return (1, "")
+    return (0, _lower(val) if lower else val)
 
 
 def _lower(obj: Any) -> str:
